@@ -3,6 +3,7 @@
 
 pub mod dut;
 pub mod exec;
+pub mod expect;
 pub mod gen;
 pub mod props;
 pub mod refcodec;
@@ -45,6 +46,7 @@ macro_rules! dispatch {
             "C04" => $f(&props::c04::C04, $($arg),*),
             "C05" => $f(&props::c05::C05, $($arg),*),
             "C06" => $f(&props::c06::C06, $($arg),*),
+            "C10" => $f(&props::c10::C10, $($arg),*),
             other => {
                 println!("HARNESS-ERROR unknown property {other}");
                 EXIT_HARNESS
